@@ -577,6 +577,22 @@ func checkProxy(c *Ctx, t importTable, base, k string, kv *ast.KeyValueExpr, tpk
 		return
 	}
 	c.Ob("T4-proxy", key, kv, true, fmt.Sprintf("*%s implements %s.%s (%d methods)", ptn.Name(), t.path, k, iface.NumMethods()))
+	// Comp.converterToProxy fills the struct by position: field i+1 receives method i of the interface in reflect's
+	// order (sorted by name), so the fields after Object must be declared in exactly that order
+	{
+		var mnames []string
+		for i := 0; i < iface.NumMethods(); i++ {
+			mnames = append(mnames, iface.Method(i).Name())
+		}
+		sort.Strings(mnames)
+		okOrder := st.NumFields() == len(mnames)+1
+		for i, mn := range mnames {
+			if i+1 < st.NumFields() && st.Field(i+1).Name() != mn+"_" {
+				okOrder = false
+			}
+		}
+		c.Ob("T4-proxy-order", key, kv, okOrder, "the fields after Object are the interface's methods in sorted order, one each: the converter fills field i+1 with method i")
+	}
 	for i := 0; i < iface.NumMethods(); i++ {
 		m := iface.Method(i)
 		mkey := key + "." + m.Name()
